@@ -122,24 +122,38 @@ func extractSaslPlain(repo, root string) error {
 			if r != recv {
 				continue
 			}
+			// helpers declared in the same file are looked through (an "extract function" refactoring must not change
+			// the recorded order): a call to a non-interesting same-file function contributes that function's calls
+			local := map[string]*ast.FuncDecl{}
+			for _, d2 := range f.Decls {
+				if fd2, ok := d2.(*ast.FuncDecl); ok && fd2.Body != nil {
+					local[fd2.Name.Name] = fd2
+				}
+			}
 			var out []string
-			ast.Inspect(fd.Body, func(n ast.Node) bool {
-				call, ok := n.(*ast.CallExpr)
-				if !ok {
+			var walk func(body ast.Node, depth int)
+			walk = func(body ast.Node, depth int) {
+				ast.Inspect(body, func(n ast.Node) bool {
+					call, ok := n.(*ast.CallExpr)
+					if !ok {
+						return true
+					}
+					nm := ""
+					switch fn := call.Fun.(type) {
+					case *ast.SelectorExpr:
+						nm = fn.Sel.Name
+					case *ast.Ident:
+						nm = fn.Name
+					}
+					if interesting[nm] {
+						out = append(out, nm)
+					} else if h, isLocal := local[nm]; isLocal && depth > 0 && h != fd {
+						walk(h.Body, depth-1)
+					}
 					return true
-				}
-				nm := ""
-				switch fn := call.Fun.(type) {
-				case *ast.SelectorExpr:
-					nm = fn.Sel.Name
-				case *ast.Ident:
-					nm = fn.Name
-				}
-				if interesting[nm] {
-					out = append(out, nm)
-				}
-				return true
-			})
+				})
+			}
+			walk(fd.Body, 2)
 			return out, nil
 		}
 		return nil, fmt.Errorf("%s: func (%s) %s not found", file, recv, name)
@@ -173,6 +187,27 @@ func extractSaslPlain(repo, root string) error {
 	b.WriteString("def plainNextCompleted : Bool := " + nextCompleted + "\n")
 	b.WriteString("/-- authentication-relevant calls, in source order -/\n")
 	b.WriteString(strings.Join(lines, "\n") + "\n")
+	// control flow of the two authenticateSASL functions, by symbolic execution over call outcomes
+	for _, x := range []struct{ lean, file, recv, name string }{
+		{"dialerAuthFlow", "dialer.go", "Dialer", "authenticateSASL"},
+		{"transportAuthFlow", "transport.go", "", "authenticateSASL"},
+	} {
+		rows, unhandled, err := authFlowTable(repo, x.file, x.recv, x.name)
+		if err != nil {
+			return err
+		}
+		if len(unhandled) > 0 {
+			fmt.Fprintln(os.Stderr, "saslplain: UNTRANSLATED in", x.name, ":", unhandled)
+			rows = append(rows, fmt.Sprintf("([%q], [%q], %q)", "untranslated", strings.Join(unhandled, "; "), "?"))
+		}
+		b.WriteString("/-- (scenario of call outcomes, calls made in order, value returned) -/\n")
+		b.WriteString("def " + x.lean + " : List (List String × List String × String) := [\n  " + strings.Join(rows, ",\n  ") + "]\n")
+	}
+	sf, err := scramFacts(repo)
+	if err != nil {
+		return err
+	}
+	b.WriteString(sf)
 	b.WriteString("end KV.Gen\n")
 	return os.WriteFile(filepath.Join(root, "lean", "KafkaVerif", "Gen", "SaslPlainFmt.lean"), []byte(b.String()), 0o644)
 }
